@@ -66,6 +66,12 @@ def main(argv=None):
     ap.add_argument("--write-baseline", action="store_true",
                     help="record which obligations discharge (run on the pinned tree only; the file is committed)")
     a = ap.parse_args(argv)
+    try:
+        import faulthandler
+        import signal
+        faulthandler.register(signal.SIGUSR1, all_threads=False)     # kill -USR1 <pid>: where is it?
+    except (ImportError, AttributeError, ValueError):
+        pass
     seed = int(os.environ.get("VERIF_SEED", "0") or 0)
     t0 = time.time()
     os.chdir(ROOT)
@@ -77,6 +83,7 @@ def main(argv=None):
         from contracts import finite_c  # noqa: F401
         from contracts import finite_policy  # noqa: F401
         from contracts import bounded_rds  # noqa: F401
+        from contracts import finite_host  # noqa: F401
     except Exception:
         traceback.print_exc()
         print(f"CHECKER-ERROR property={a.prop}: contracts could not be loaded")
